@@ -12,6 +12,172 @@ from ..common import Check, pmap
 from ..dotgraph import Graph
 from ..parreplay import replay_path
 
+TRACE_INVS = ['TypeOK', 'NoDup', 'NoLoss', 'WindowBound', 'ExactlyOnce', 'SameAsSequential']
+
+
+def real_pool_cases(tier, seed):
+    """Executions of parproc() over real pools to record: branch x payload count x workers x raising subset x task durations
+    (the durations only make different completion orders likely; whichever order the OS produces is what gets validated)."""
+    import random
+    rr = random.Random(1000 + seed)
+    cases = []
+    reps = 1 if tier == 'quick' else 4
+    for _ in range(reps):
+        for branch, ns, wks in (('process', [2, 3, 4, 5, 6, 7] + ([9, 12] if tier == 'thorough' else []), [1, 2, 3]),
+                                ('thread', [2, 3, 4, 5, 6] + ([9] if tier == 'thorough' else []), [1, 2, 4])):
+            for n in ns:
+                for wk in wks:
+                    for style in ('none', 'some', 'all'):
+                        if style == 'all' and (n + wk) % 2:
+                            continue
+                        raising = [] if style == 'none' else list(range(1, n + 1)) if style == 'all' else \
+                            sorted(rr.sample(range(1, n + 1), rr.randint(1, max(1, n // 2))))
+                        delays = {str(t): rr.choice([0, 0, 0, 1, 2, 5, 12]) for t in range(1, n + 1)}
+                        cases.append({'n': n, 'raising': raising, 'workers': wk, 'branch': branch, 'delays': delays,
+                                      'consumer_delay': rr.choice([0, 0, 3])})
+        for branch in ('process', 'thread', 'seq'):
+            cases.append({'n': 1, 'raising': rr.choice([[], [1]]), 'workers': 2, 'branch': branch, 'delays': {}})
+            cases.append({'n': 0, 'raising': [], 'workers': 2, 'branch': branch, 'delays': {}})
+        for n in (2, 4):
+            cases.append({'n': n, 'raising': [2], 'workers': 2, 'branch': 'seq', 'delays': {}})
+    return cases
+
+
+def record_real_pools(d, cases, shards=8):
+    """parrecord runs in plain subprocesses (pool workers are daemonic and may not start process pools)."""
+    import json
+    import subprocess
+    import sys
+    procs, outs = [], []
+    for i in range(shards):
+        part = cases[i::shards]
+        if not part:
+            continue
+        cin, cout = os.path.join(d, f'rc{i}.json'), os.path.join(d, f'ro{i}.json')
+        json.dump(part, open(cin, 'w'))
+        procs.append(subprocess.Popen([sys.executable, '-m', 'harness.parrecord', cin, cout], cwd=os.path.dirname(os.path.dirname(
+            os.path.dirname(os.path.abspath(__file__)))), stdout=subprocess.PIPE, stderr=subprocess.STDOUT, text=True))
+        outs.append(cout)
+    recs = []
+    for p, cout in zip(procs, outs):
+        try:
+            out, _ = p.communicate(timeout=900)
+        except subprocess.TimeoutExpired:
+            p.kill()
+            raise tlc.MachineryError('recording real pools timed out')
+        if p.returncode != 0 or not os.path.exists(cout):
+            raise tlc.MachineryError('recording real pools failed:\n' + (out or '')[-2000:])
+        recs += json.load(open(cout))
+    return recs
+
+
+def _corrupt(rec, k):
+    """One logged field changed / one event dropped or repeated; every variant touches a field ParProcTrace binds."""
+    import copy
+    c = copy.deepcopy(rec)
+    ev = c['ev']
+    ys = [i for i, e in enumerate(ev) if e['ev'] == 'yield']
+    subs = [i for i, e in enumerate(ev) if e['ev'] == 'submit']
+    obs = [i for i, e in enumerate(ev) if e['ev'] == 'observe']
+    kind = k % 5
+    if kind == 0 and ys:
+        ev[ys[k % len(ys)]]['exc'] ^= True
+        what = 'exc flag of a yield'
+    elif kind == 1 and subs:
+        ev.pop(subs[-1])
+        what = 'last submit dropped'
+    elif kind == 2 and ys:
+        ev.insert(ys[0], dict(ev[ys[0]]))
+        what = 'a yield repeated'
+    elif kind == 3 and len(ys) >= 2:
+        ev[ys[0]]['t'], ev[ys[1]]['t'] = ev[ys[1]]['t'], ev[ys[0]]['t']
+        what = 'tasks of two yields swapped'
+    elif obs:
+        ev.pop(obs[-1])
+        what = 'an observe dropped'
+    else:
+        ev.pop()
+        what = 'end dropped'
+    c['_corrupt'] = what
+    return c
+
+
+def _tlc_group(arg):
+    import json
+    d, (nt, w), recs = arg
+    path = os.path.join(d, f'tr_{nt}_{w}.json')
+    json.dump([{k: v for k, v in r.items() if not k.startswith('_')} for r in recs], open(path, 'w'))
+    cfg = os.path.join(d, f'tr_{nt}_{w}.cfg')
+    open(cfg, 'w').write(f'CONSTANT NT = {nt}\nCONSTANT Window = {w}\nCONSTANT Modes = {{"window", "all", "seq", "single"}}\n'
+                         'INIT TraceInit\nNEXT TNext\n' + ''.join(f'INVARIANT {i}\n' for i in TRACE_INVS)
+                         + 'CHECK_DEADLOCK FALSE\nPOSTCONDITION AllAccepted\n')
+    return tlc.run_tlc('ParProcTrace', cfg=cfg, env={'VERIF_TRACES': path}, workers=1, timeout=600, heap='2g')
+
+
+def validate_real_pools(ck, d, tier):
+    """Code -> spec: every recorded execution over real pools must be a behaviour of ParProc (ParProcTrace), with ParProc's
+    invariants holding in every state of it; corrupted copies of the traces must be rejected."""
+    import concurrent.futures as cf
+    cases = real_pool_cases(tier, ck.seed)
+    recs = record_real_pools(d, cases)
+    for r in recs:
+        if '_error' in r:
+            ck.violation({'kind': 'schedule', 'inputs': r['_case'], 'expected': 'parproc() yields one Result per payload',
+                          'observed': r['_error'], 'why': 'parproc() over a real pool raised', 'spec': 'ParProcTrace'},
+                         key='realraise' + r['_error'][:40])
+    good = [r for r in recs if '_error' not in r]
+    pool = [r for r in good if len(r['ev']) >= 6]
+    corrupted = [_corrupt(r, k) for k, r in enumerate(pool[::max(1, len(pool) // 25)])]
+    groups = {}
+    for r in good + corrupted:
+        groups.setdefault((r['nt'], r['window']), []).append(r)
+    keys = sorted(groups)
+    with cf.ThreadPoolExecutor(max_workers=16) as ex:
+        results = list(ex.map(_tlc_group, [(d, k, groups[k]) for k in keys]))
+    nacc = rejected = 0
+    for k, r in zip(keys, results):
+        ck.add_tlc(r, f'ParProcTrace NT={k[0]} Window={k[1]} ({len(groups[k])} executions)')
+        if r.violated:
+            ck.violation({'kind': 'schedule', 'inputs': {'spec': 'ParProcTrace', 'NT': k[0], 'Window': k[1],
+                                                         'executions': [x['_case'] for x in groups[k] if '_case' in x][:6]},
+                          'expected': 'ParProc invariants hold in every state of every observed execution', 'observed': r.violated,
+                          'trace': r.trace[:60], 'spec': 'ParProc!' + str(r.violated)}, key=f'ptinv{k}{r.violated}')
+            continue
+        acc = r.res.get('accepted')
+        if not acc:
+            raise tlc.MachineryError('ParProcTrace produced no acceptance report:\n' + r.stdout[-1500:])
+        accepted = set(acc['accepted']) if isinstance(acc['accepted'], list) else set()
+        for i, rec in enumerate(groups[k], 1):
+            reached = acc['reached'][i - 1] if isinstance(acc['reached'], list) else 0
+            if '_corrupt' in rec:
+                if i in accepted:
+                    ck.notes.setdefault('pool_corruptions_not_rejected', []).append(rec['_corrupt'])
+                else:
+                    rejected += 1
+                continue
+            ck.count(evaluations=1, traces=1, nontrivial=1 if len(rec['ev']) > 8 else 0)
+            if i in accepted:
+                nacc += 1
+                if len(ck.cov['samples']) < 5 and rec['mode'] == 'window' and rec['raises'] and rec['nt'] >= 5:
+                    ck.sample({'real_pool_execution': rec['_case'], 'events': [e['ev'] + (str(e['t']) if e['t'] else '') for e in rec['ev']],
+                               'ParProcTrace': 'accepted'})
+                continue
+            ck.violation({'kind': 'schedule', 'inputs': {'execution': rec['_case'], 'mode': rec['mode'], 'NT': rec['nt'], 'Window': rec['window'],
+                                                         'raises': rec['raises'], 'events': rec['ev']},
+                          'expected': 'the recorded execution is a behaviour of ParProc',
+                          'observed': {'events_matched': max(0, reached - 1), 'of': len(rec['ev']),
+                                       'around_rejection': rec['ev'][max(0, reached - 3):reached + 1]},
+                          'why': 'execution over a real pool rejected by ParProcTrace', 'spec': 'ParProcTrace!TNext'},
+                         key=f"ptrej{rec['mode']}{rec['nt']}{rec['ev'][max(0, reached - 1):reached + 1]}")
+    ck.notes['real_pool_executions_validated'] = nacc
+    ck.notes['real_pool_trace_events'] = sum(len(r['ev']) for r in good)
+    ck.notes['pool_corruptions_rejected'] = f'{rejected}/{len(corrupted)}'
+    if corrupted and rejected < len(corrupted):
+        raise tlc.MachineryError(f'ParProcTrace binding self-test: only {rejected} of {len(corrupted)} corrupted traces were rejected: '
+                                 f"{ck.notes.get('pool_corruptions_not_rejected')}")
+    if not ck.violations and nacc < len(cases) * 0.9:
+        raise tlc.MachineryError(f'only {nacc} of {len(cases)} real-pool executions were validated')
+
 
 def write_cfg(path, nt, window, modes, live=True):
     open(path, 'w').write(
@@ -145,6 +311,8 @@ def run(tier):
                     ck.violation({'kind': 'schedule', 'inputs': {**c, 'mode': modename}, 'expected': o['want'], 'observed': got,
                                   'why': 'parproc() results differ from the sequential map', 'spec': 'ParProc!SameAsSequential'},
                                  key=f"real{modename}{c['n']}")
+        # (4) code -> spec: executions over real pools validated against ParProcTrace
+        validate_real_pools(ck, d, tier)
         for c in [{'n': 4, 'first_parallel': False}] + ([{'n': 4, 'first_parallel': True}] if tier == 'thorough' else []):
             o = run_after_interrupt(c)
             ck.count(evaluations=3, traces=3)
@@ -159,7 +327,9 @@ def run(tier):
     ck.cov['rule'] = ('TLC: all completion orders x all raising subsets for NT<=5(6), Window 2-4, modes window/all/seq/single, safety + '
                       'liveness; replay: an edge-covering set of behaviours of the dumped state graphs (NT 3-5) driven through the real '
                       'executor_pmap with a non-forking executor and a scheduled as_completed; real pools: parproc() sequential vs parallel '
-                      'multisets; non-trivial = behaviour longer than 6 steps')
+                      'multisets; code -> spec: executions of parproc() over real thread and process pools (free OS schedules) recorded through '
+                      'wrappers around the executor classes and as_completed and validated by TLC against ParProcTrace (ParProc invariants in '
+                      'every state of every observed execution; corrupted copies must be rejected); non-trivial = behaviour longer than 6 steps')
     ck.cov['exhaustive'] = True
     ck.assumptions += ['the deterministic executor runs task functions synchronously at Complete(t); worker-side crashes are not modelled']
     return ck.finish()
